@@ -603,17 +603,10 @@ def desc_of_edit(lines, new, lm):
 def shrink_layout(kind, lines, desc):
     if desc[0] not in ('insert', 'replace'):
         return lines, desc
-    keep = desc[1] if desc[0] == 'replace' else None
-    cur = [list(lines), desc]
-
-    def fails(cand, k2):
-        d = cur[1]
-        if d[0] == 'replace':
-            d2 = ('replace', k2, d[2])
-        else:
-            d2 = d
-        return check_layout(kind, cand, d2) is not None
-    # insertion position: shrink only lines after/before while keeping the position valid
+    f0 = check_layout(kind, lines, desc)
+    if f0 is None:
+        return lines, desc
+    why0 = f0['why']        # keep the same kind of failure (e.g. the base file stays an accepted file)
     lines2 = list(lines)
     changed = True
     d = desc
@@ -627,7 +620,8 @@ def shrink_layout(kind, lines, desc):
                 d2 = ('replace', d[1] - 1 if j < d[1] else d[1], d[2])
             else:
                 d2 = ('insert', d[1] - 1 if j < d[1] else d[1], d[2])
-            if check_layout(kind, cand, d2) is not None:
+            f = check_layout(kind, cand, d2)
+            if f is not None and f['why'] == why0:
                 lines2, d, changed = cand, d2, True
     return lines2, d
 
@@ -712,7 +706,7 @@ def sig_cli(f, which):
 # ------------------------------------------------------------------------------------------------
 def build_cases(seed, tier):
     rnd = random.Random(seed)
-    nb = {'m': 24, 'v': 16} if tier == 'quick' else {'m': 400, 'v': 250}
+    nb = {'m': 24, 'v': 16} if tier == 'quick' else {'m': 250, 'v': 150}
     per_kind = 1 if tier == 'quick' else 2
     cases = []
 
